@@ -341,6 +341,8 @@ def match_known(known, v):
     flat['kind'] = v.get('kind')
     flat['site'] = v.get('site')
     flat['part'] = v.get('part')
+    if isinstance(v.get('observed'), (int, float)):
+        flat['observed'] = v.get('observed')
     for kf in known:
         ok = True
         for key, want in kf.get('match', {}).items():
